@@ -14,7 +14,6 @@
                [capacity] announcements are held, HashLimit being a resource bound outside the
                property).                                                                *)
 From Coq Require Import NArith ZArith List Bool.
-From LV Require Import lib.ZPlain.
 Import ListNotations.
 
 Inductive lentry :=
@@ -53,8 +52,8 @@ Definition time_of (e : lentry) : Z :=
 
 (* liveness at time t: nobody is overdue *)
 Definition overdue (forget bound : Z) (t : Z) (x : item) : bool :=
-  negb (i_done x) && zltb (zadd (i_since x) bound) t
-  && zltb (zsub (zadd (i_since x) bound) (i_atime x)) forget.
+  negb (i_done x) && Z.ltb (Z.add (i_since x) bound) t
+  && Z.ltb (Z.sub (Z.add (i_since x) bound) (i_atime x)) forget.
 
 Definition spec_step (forget bound : Z) (capacity : N) (s : sp) (e : lentry) : option sp :=
   let t := time_of e in
